@@ -1261,7 +1261,9 @@ func (f *fragment) maxRow(filter *Row) (uint64, uint64) {
 	minRowID, hasRowID := f.minRowID()
 	if hasRowID {
 		if filter == nil {
-			return f.maxRowID, 1
+			// f.maxRowID is an upper bound (rows may have been cleared since):
+			// the last row that still has a bit is the one holding the largest position.
+			return f.storage.Max() / ShardWidth, 1
 		}
 		// iterate back from max row ID and return the first that intersects with filter.
 		// TODO: implement reverse container iteration to improve performance here for sparse data. --Jaffee
@@ -1270,6 +1272,10 @@ func (f *fragment) maxRow(filter *Row) (uint64, uint64) {
 			count := row.Count()
 			if count > 0 {
 				return i, count
+			}
+			if i == 0 {
+				// i is unsigned: stop instead of wrapping around to the largest row ID
+				break
 			}
 		}
 	}
